@@ -6,10 +6,13 @@ import SleapVerif.Lemmas.TrainTrace
 Statements are about `SleapVerif.TrainTrace.traceG`, the model of the configuration-persisting
 writes of `ModelTrainer.__init__` + `ModelTrainer.train()` (tied to the code by `harness/c19.py`,
 which logs every write of the real trainer and compares both the event list and the file system
-after every write).  `trace f = traceG .repaired f [true]` is the code with
-`fixes/C19-blank-key.patch`; `asIs f = traceG .asIs f [true]` is the pinned tree, for which the
-property is **false** (findings F-C19, F-C19b): the `…_counterexample` theorems prove the negation
-on concrete witnesses, the `asIs_…` theorems say exactly where it fails.
+after every write).  `Version.repaired` (`trace f = traceG .repaired f [true]`, `traceR`, `traceS`) is
+**the tree as it is now** (HEAD with the fixes 4edc0d6, cb444fc, b1bbd3c applied): the property
+theorems below are about it.  `Version.asIs` (the originally pinned tree, findings F-C19 / F-C19b)
+and `Version.keyFixed` (the tree before b1bbd3c, finding F-C19c) no longer describe any checkout;
+their `…_counterexample` / `asIs_…` / `keyFixed_…` theorems are kept as the machine-checked
+regression record of what was wrong and where (the harness replays the witnesses and reports a run
+that behaves like them as a regression).
 
 Quantifiers: `f : Flags` ranges over the whole configuration grid (4 model types × 2 frameworks ×
 tracking × checkpointing × structured/plain × chunk deletion); `n : Nat` ranges over **every**
@@ -209,9 +212,7 @@ theorem artefacts_complete_same_folder (fA : Flags) (rsA : List Bool) (fB : Flag
                      else if fA.fw = .npChunks ∧ ¬ fA.deleteChunks then some .data else none) := by
   simp only [fsSameAfter, sameStart]
   rw [fsAfter_repaired_eq, fsFrom_traceS_any_epochs]
-  rcases fA with ⟨mA, fwA, wA, cA, sA, dA⟩
-  simp only
-  cases fwA <;> cases wA <;> cases cA <;> cases dA <;> flag_cases fB
+  exact same_folder_exit fA.fw fA.wandb fA.ckpt fA.deleteChunks fB
 
 /-- **Run B completes** (repaired code). -/
 theorem train_total_same_folder (a : Bool) (f : Flags) (rounds : List Bool) :
@@ -223,7 +224,8 @@ theorem train_total_same_folder (a : Bool) (f : Flags) (rounds : List Bool) :
   · intro b; cases a <;> cases b <;> flag_cases f
   · flag_cases f
 
-/-! ### Finding F-C19c: bottom-up model + re-used chunks raises (tree with only F-C19/F-C19b repaired) -/
+/-! ### Regression record, finding F-C19c (fixed by b1bbd3c): bottom-up model + re-used chunks raised
+on the tree that had only the F-C19/F-C19b repair (`Version.keyFixed`) -/
 
 /-- On fresh runs the `keyFixed` tree already behaves as demanded. -/
 theorem keyFixed_fresh_eq_repaired (f : Flags) (rounds : List Bool) :
@@ -267,7 +269,7 @@ theorem keyFixed_reuse_no_key (f1 : Flags) (r1 : List Bool) (f2 : Flags) (r2 : L
   · intro b; cases b <;> flag_cases f2
   · flag_cases f2
 
-/-! ## The pinned tree (as is): the property is false — findings F-C19 / F-C19b -/
+/-! ## Regression record: the originally pinned tree (as is), for which the property was false — findings F-C19 / F-C19b -/
 
 /-- Full statement for the code as it is (false, see the counterexamples). -/
 def AsIsNoKey : Prop :=
